@@ -143,6 +143,13 @@ Proof.
   destruct (srun (reload p') ops) as [[outs evs] pf]; reflexivity.
 Qed.
 
+Lemma rel_from_cons_fail p q ops :
+  rel_from p (SReqFail q :: ops) = rel_from (reload p) ops.
+Proof.
+  unfold rel_from; simpl.
+  destruct (srun (reload p) ops) as [[outs evs] pf]; reflexivity.
+Qed.
+
 Lemma rel_from_cons_reload p ops :
   rel_from p (SReload :: ops) = rel_from (reload p) ops.
 Proof.
@@ -202,7 +209,7 @@ Lemma main_inv ops : forall p,
 Proof.
   induction ops as [|o ops IH]; intros p Hsync Hwf.
   - unfold rel_from; simpl. split; [reflexivity|]. split; [reflexivity|]. intros e [].
-  - destruct o as [q|q|].
+  - destruct o as [q|q|q|].
     + (* SReq *)
       rewrite rel_from_cons_req.
       pose proof (sign_sync p q Hsync) as Hsync'.
@@ -248,6 +255,8 @@ Proof.
       destruct (sign_forward p q) as [Heq|Hlt].
       * rewrite <- Heq. apply Haft; assumption.
       * apply (after_weaken _ _ _ Hlt). apply Haft; assumption.
+    + (* SReqFail *)
+      rewrite rel_from_cons_fail, (reload_id _ Hsync). apply IH; assumption.
     + (* SReload *)
       rewrite rel_from_cons_reload, (reload_id _ Hsync). apply IH; assumption.
 Qed.
@@ -266,12 +275,14 @@ Proof.
   intros ops. cbv zeta.
   assert (G : forall ops p, vol p = dur p -> vol (snd (srun p ops)) = dur (snd (srun p ops))).
   { clear ops. induction ops as [|o ops IH]; intros p Hs; simpl; auto.
-    destruct o as [q|q|]; simpl.
+    destruct o as [q|q|q|]; simpl.
     - pose proof (sign_sync p q Hs) as Hs'. destruct (sign p q) as [p' r]; simpl in *.
       specialize (IH p' Hs'). destruct (srun p' ops) as [[a b] c]; simpl in *; exact IH.
     - pose proof (sign_sync p q Hs) as Hs'. destruct (sign p q) as [p' r]; simpl in *.
       assert (Hr : vol (reload p') = dur (reload p')) by reflexivity.
       specialize (IH _ Hr). destruct (srun (reload p') ops) as [[a b] c]; simpl in *; exact IH.
+    - assert (Hr : vol (reload p) = dur (reload p)) by reflexivity.
+      specialize (IH _ Hr). destruct (srun (reload p) ops) as [[a b] c]; simpl in *; exact IH.
     - assert (Hr : vol (reload p) = dur (reload p)) by reflexivity.
       specialize (IH _ Hr). destruct (srun (reload p) ops) as [[a b] c]; simpl in *; exact IH. }
   apply G; reflexivity.
@@ -352,7 +363,7 @@ Proof.
   cbn [srun]. destruct (sstep p o) as [[p' out] ev] eqn:Est.
   destruct (srun p' ops) as [[outs evs] pf] eqn:Er. cbn [fst].
   assert (Houts : outs = fst (fst (srun p' ops))) by (rewrite Er; reflexivity).
-  destruct o as [q|q|]; cbn [sstep] in Est.
+  destruct o as [q|q|q|]; cbn [sstep] in Est.
   - (* SReq *)
     destruct (sign p q) as [p1 r] eqn:Esg. inversion Est; subst p' out ev; clear Est.
     cbn [resign_ok]. apply andb_true_iff. 
@@ -402,6 +413,9 @@ Proof.
         cbn. repeat split. exists (req_sb q). cbn. repeat split.
   - (* SReqLost *)
     destruct (sign p q) as [p1 r] eqn:Esg. inversion Est; subst p' out ev; clear Est.
+    cbn [resign_ok]. rewrite Houts. apply IH; [reflexivity|exact I].
+  - (* SReqFail *)
+    inversion Est; subst p' out ev; clear Est.
     cbn [resign_ok]. rewrite Houts. apply IH; [reflexivity|exact I].
   - (* SReload *)
     inversion Est; subst p' out ev; clear Est.
